@@ -2,10 +2,9 @@ CONSTANTS
   MaxLen = 6
   ModeLen = 4
   Families <- FamThorough
-  Dev_SuffixOnSanitizedLength = TRUE
+  Dev_SuffixOnSanitizedLength = FALSE
 SPECIFICATION Spec
 INVARIANT Inv_Valid
 INVARIANT Inv_Derived
-INVARIANT Inv_SuffixKF
-INVARIANT Inv_KFShape
+INVARIANT Inv_Suffix
 INVARIANT Inv_Forced
